@@ -1,6 +1,6 @@
 SPECIFICATION TraceSpec
 CONSTANTS
-  CfgNames = {"one", "sizes", "wts", "ties", "zero", "dup", "lead0", "fam", "allzero", "mix3"}
+  CfgNames = {"one", "sizes", "wts", "ties", "zero", "dup", "lead0", "fam", "allzero", "mix3", "hostbits"}
   LibVers = {0, 1, 2, 3, 4}
   Fams = {4, 6}
   NSel = 1
@@ -8,6 +8,7 @@ CONSTANTS
   ProcSeedKs = {}
   RNG = "local"
   AddrBytes = "fill"
+  NetBase = "masked"
 INVARIANTS Contained WellFormed RandPortFromSubnet Pure
 POSTCONDITION Post
 CHECK_DEADLOCK FALSE
